@@ -6,6 +6,7 @@ package node
 
 import (
 	"github.com/holiman/uint256"
+	"github.com/rigochain/rigo-go/ctrlers/stake"
 	ctrlertypes "github.com/rigochain/rigo-go/ctrlers/types"
 	"github.com/rigochain/rigo-go/zzverif"
 	abcitypes "github.com/tendermint/tendermint/abci/types"
@@ -14,6 +15,7 @@ import (
 type zzBlockOut struct {
 	codes   []uint32
 	gasUsed []int64
+	data    [][]byte
 	ups     []abcitypes.ValidatorUpdate
 	hash    []byte
 }
@@ -24,6 +26,9 @@ func zzSameOut(a, b *zzBlockOut, tag string) {
 		if i < len(b.codes) {
 			zzverif.Assert(a.codes[i] == b.codes[i], tag+": same transaction result code")
 			zzverif.Assert(a.gasUsed[i] == b.gasUsed[i], tag+": same gas used")
+			if i < len(a.data) && i < len(b.data) {
+				zzverif.Assert(zzverif.SameBytes(a.data[i], b.data[i]), tag+": same transaction result data")
+			}
 		}
 	}
 	zzverif.Assert(len(a.ups) == len(b.ups), tag+": same number of validator updates")
@@ -270,4 +275,36 @@ func ZZ_C06_M3() {
 	oa4, ob4 := run(a, false), run(b, false)
 	zzSameOut(oa4, ob4, "M3 block 4")
 	zzverif.Reach("M3 end")
+}
+
+// ZZ_C06_M4: mempool traffic before the first block that carries votes.  Block 1
+// is empty; replica B then serves a CheckTx of a delegation to a validator (or of
+// a validator's unbonding); block 2 carries the votes of block 1, so rewards are
+// computed from the state of version 1.  Block outputs, application hashes and
+// the validators' rewards must be the same on both replicas.
+func ZZ_C06_M4() {
+	govp := ctrlertypes.Test1GovParams()
+	g := zzNewGenesisBanded(5, 2, govp)
+	a, b := g.start(), g.start()
+	for _, n := range []*zzNode{a, b} {
+		n.emptyBlock(0)
+	}
+	gas, price := govp.MinTrxGas(), govp.GasPrice()
+	var chk *zzTx
+	if zzverif.Choose("check.kind", 2) == 0 {
+		chk = &zzTx{from: 3, to: zzverif.Choose("check.to", 2), typ: ctrlertypes.TRX_STAKING, amount: ctrlertypes.PowerToAmount(zzverif.NondetI64In("check.power", 1, 1<<30)),
+			gas: gas, gasPrice: price, nonce: 0, signer: 3}
+	} else {
+		chk = &zzTx{from: 1, to: 1, typ: ctrlertypes.TRX_UNSTAKING, amount: uint256.NewInt(0), gas: gas, gasPrice: price, nonce: 0, signer: 1,
+			payload: &ctrlertypes.TrxPayloadUnstaking{TxHash: make([]byte, 32)}}
+	}
+	b.app.CheckTx(abcitypes.RequestCheckTx{Tx: b.encode(chk), Type: abcitypes.CheckTxType_New})
+	for blk := 2; blk <= 3; blk++ {
+		oa, ob := a.menuBlock(nil, true), b.menuBlock(nil, true)
+		zzSameOut(oa, ob, "M4 block after a mempool check")
+		for i := 0; i < 2; i++ {
+			zzverif.Assert(stake.ZZCumulated(a.app.stakeCtrler, zzAddr(i)).Eq(stake.ZZCumulated(b.app.stakeCtrler, zzAddr(i))), "M4 the rewards issued by the block do not depend on mempool traffic")
+		}
+	}
+	zzverif.Reach("M4 end")
 }
